@@ -23,6 +23,7 @@ type genCtx struct {
 	helper bool // helper function gf5 exists and may be called
 	inHelp bool
 	inInit bool // generating the extra statements of an initializer
+	hasRefs *bool // a local reference (or AnyStruct possibly holding one) has been declared
 }
 
 func (g *genCtx) ln() int  { *g.nextLn++; return *g.nextLn }
@@ -481,10 +482,18 @@ func (g *genCtx) genStmt(allowIf bool) *Stmt {
 		// the line tag of a let whose initializer is a function literal must precede the tags of its body:
 		// renumbering is done by fixLines
 		g.vars = append(g.vars, gvar{x, t, true})
+		if t.K == "Ref" || t.K == "Any" || (t.K == "Opt" && t.E.K == "Ref") {
+			*g.hasRefs = true
+		}
 		return s
 	case 4, 5, 6, 7:
 		a := g.pick(func(a acc) bool {
 			if !g.assignable(a) {
+				return false
+			}
+			// replacing a whole container while a reference into it is alive leaves that reference dangling in the
+			// implementation (run-time error on use): a matter of reference validity, not of purity
+			if *g.hasRefs && isContainerTy(a.Ty) {
 				return false
 			}
 			// bias: locals and parameter-rooted chains are mostly pure, the others impure
@@ -511,8 +520,10 @@ func (g *genCtx) genStmt(allowIf bool) *Stmt {
 			return nil
 		}
 		b := g.pick(func(b acc) bool { return g.assignable(b) && b.Ty.K == "Int" && (b.RootLo || r.Intn(1000) < g.impure*2) })
-		if b == nil || a.T.Coq() == b.T.Coq() {
-			// swapping a slot with itself fails at run time in the implementation ("used before initialized"): not a purity matter
+		local := func(x acc) bool { return !x.Via && x.T.Root() >= 10 }
+		if b == nil || a.T.Coq() == b.T.Coq() || (!local(*a) && !local(*b)) {
+			// swapping a slot with itself (directly, or through two aliases: self / a reference parameter / a global)
+			// fails at run time in the implementation ("used before initialized"): not a purity matter
 			return nil
 		}
 		return &Stmt{Kind: "Swap", Ln: g.ln(), T: a.T, T2: b.T}
@@ -654,7 +665,7 @@ func genCase(r *lib.Rng, name string) *Case {
 	kind := []int{KMethodS, KMethodS, KMethodS, KMethodR, KMethodR, KGlobal, KGlobal, KInitS, KInitR}[r.Intn(9)]
 	impure := []int{0, 0, 40, 120, 300}[r.Intn(5)]
 	mk := func(host string, params []Param) *genCtx {
-		g := &genCtx{rng: r, host: host, nextID: &nextID, nextLn: &nextLn, impure: impure}
+		g := &genCtx{rng: r, host: host, nextID: &nextID, nextLn: &nextLn, impure: impure, hasRefs: new(bool)}
 		g.vars = []gvar{{idG, tInt, false}, {idGD, tDict, false}, {idGArr, tArr(tInt), false}}
 		switch host {
 		case "S":
